@@ -51,7 +51,7 @@ def analyse(repo, use_cache=True):
     """-> dict(runs=[...], wall_s=..)   runs[i] has keys mode, c04, obligations, alarms, ... or error"""
     path = os.path.join(repo.root, 'auditok', 'core.py')
     import hashlib
-    key = hashlib.sha256((repo.digest(['core']) + analyser_digest()).encode()).hexdigest()[:32]
+    key = hashlib.sha256((repo.digest() + analyser_digest()).encode()).hexdigest()[:32]
     cdir = os.path.join(VERIF, '.cache')
     cfile = os.path.join(cdir, 'tok-%s.json' % key)
     if use_cache and os.path.exists(cfile):
